@@ -28,7 +28,16 @@ RINEX = {
     "NAVIC": _codes((22, "5A")),
 }
 
-NA = "N/A"
+NA = "N/A"  # default; checks use na_marker() which prefers the library's own constant
+
+
+def na_marker():
+    try:
+        from pyrtcm.rtcmtypes_core import NA as lib_na
+
+        return lib_na if isinstance(lib_na, str) and lib_na else NA
+    except ImportError:
+        return NA
 
 
 def prn_label(cons, sat_id):
